@@ -1,7 +1,7 @@
 (* Extraction of the executable models for the correspondence check.
    ExtrOcamlBasic only: bool, option, list, prod, unit, sumbool map to OCaml's own types;
    nat, positive, N, Z stay the extracted inductives.  No Extract Constant / Extract Inductive here. *)
-From M Require LexModel MatchModel FmtModel ParserModel RegModel HeapProof QStatic ErrQueue NumDecode GFmt Dtostre BufModel ExprModel Generated Glue.
+From M Require LexModel MatchModel FmtModel ParserModel RegModel CmdModel HeapProof QStatic ErrQueue NumDecode GFmt Dtostre BufModel ExprModel Generated Glue.
 Require Import Extraction ExtrOcamlBasic.
 Separate Extraction
   LexModel.lex_ws LexModel.lex_header LexModel.lex_chardata LexModel.lex_decimal LexModel.lex_suffix LexModel.lex_nondecimal
@@ -11,6 +11,7 @@ Separate Extraction
   FmtModel.int2str FmtModel.result_error
   ParserModel.scpi_input ParserModel.scpi_parse ParserModel.ctx ParserModel.op ParserModel.event ParserModel.native_le
   RegModel.push RegModel.pop RegModel.clear RegModel.wr RegModel.cls
+  CmdModel.cmd_do CmdModel.cmd_resp
   QStatic.error_pop_release QStatic.error_clear
   ErrQueue.push ErrQueue.pop ErrQueue.clear
   GFmt.fmt_double GFmt.fmt_float Dtostre.layout
